@@ -85,6 +85,37 @@ func (e *Engine) dispatchCall(st *State, cc *ssa.CallCommon, site ssa.Instructio
 	}
 	// dynamic call through an unknown function value
 	sig := cc.Signature()
+	if e.unit.C != nil && e.unit.C.Opts["puredyn"] != "" && fv.K == kTerm && sig.Results().Len() == 1 {
+		// opt puredyn: function values held in fields (e.g. a hash function) are deterministic
+		// functions of their argument *contents* (byte slices are passed as their string content)
+		e.noteAssumption("function values called dynamically in " + e.oblPrefix(fr.fn) + " are pure, deterministic functions of their arguments' contents")
+		name := "dyn_pure"
+		sorts := []string{"Int"}
+		ts := []string{fv.T}
+		for i, a := range args {
+			pt := sig.Params().At(i).Type()
+			if sl, ok := pt.Underlying().(*types.Slice); ok {
+				if b, ok := sl.Elem().Underlying().(*types.Basic); ok && b.Kind() == types.Uint8 && a.K == kTerm {
+					e.S.DeclareFun("bytes_to_str", []string{fmt.Sprintf("(Array %s %s)", e.S.IntSort(), e.sortOf(types.Typ[types.Byte])), e.S.IntSort(), e.S.IntSort()}, "String")
+					hn, hs := e.arrMapName(types.Typ[types.Byte])
+					h := e.heapGet(st, hn, hs)
+					sorts = append(sorts, "String")
+					ts = append(ts, fmt.Sprintf("(bytes_to_str (select %s (sl_ref %s)) (sl_off %s) (sl_len %s))", h, a.T, a.T, a.T))
+					name += "_bytes"
+					continue
+				}
+			}
+			sorts = append(sorts, e.sortOf(pt))
+			ts = append(ts, e.asTerm(st, e.coerce(a, pt)))
+			name += "_" + mangle(e.sortOf(pt))
+		}
+		rt := sig.Results().At(0).Type()
+		name += "_to_" + mangle(e.sortOf(rt))
+		e.S.DeclareFun(name, sorts, e.sortOf(rt))
+		e.pureRangeAxiom(name, sorts, rt)
+		k(st, []Val{term(fmt.Sprintf("(%s %s)", name, strings.Join(ts, " ")), rt)})
+		return
+	}
 	e.unmodelled["dynamic call in "+e.oblPrefix(fr.fn)] = true
 	e.bumpAlloc(st)
 	e.havocArgs(st, args)
